@@ -715,6 +715,10 @@ func corpus(r *c.Rng, tier string) []*spec {
 	add(baseSpec("K2: PUT without a body and without Content-Length (the transport adds Content-Length: 0)", "PUT", "/k2u"))
 	s = add(baseSpec("POST with Content-Length: 0 (reproduced by the transport)", "POST", "/k2p"))
 	s.Mode, s.Body = "sized", []byte{}
+	// two findings at once, and a harmless K1 shape next to K2 (attribution must not be confused)
+	add(baseSpec("K1+K2: Connection: Authorization and Content-Length: 0 on a GET", "GET", "/k12", hdr{"Authorization", "Bearer abc"}, hdr{"Connection", "Authorization"})).CLText = "0"
+	add(baseSpec("K1+K2: Connection: Sso-Signature, Gap-Signature and Content-Length: 0 on a DELETE", "DELETE", "/k12s", hdr{"Connection", "Sso-Signature, Gap-Signature"})).CLText = "0"
+	add(baseSpec("harmless K1 shape (absent Content-Md5 named) with K2", "GET", "/k2h", hdr{"Connection", "Content-Md5"})).CLText = "0"
 	// cookies
 	s = add(baseSpec("session cookie between others", "GET", "/c"))
 	s.Cookies = []string{"a=1; @S; b=2"}
@@ -936,7 +940,7 @@ func main() {
 	for _, s := range corp {
 		cases = append(cases, worlds[0].run(s))
 	}
-	for _, s := range corp[:15] {
+	for _, s := range corp[:18] {
 		for _, w := range worlds[1:] {
 			cases = append(cases, w.run(s))
 		}
